@@ -493,11 +493,14 @@ def dt1(model):
     # excluding that class itself) takes \verb|$| for a maths delimiter and \verb|{| for a brace
     verb_idx = None
     for i, (test, body) in enumerate(branches):
-        if any(isinstance(n, ast.Compare) and isinstance(n.ops[0], ast.Is) and isinstance(n.left, ast.Call)
-               and getattr(n.left.func, 'id', '') == 'type' and unparse(n.comparators[0]).endswith('VerbatimToken')
-               for n in ast.walk(test)):
+        # only a branch that takes EVERY VerbatimToken shields the text tests behind it
+        if isinstance(test, ast.Compare) and isinstance(test.ops[0], ast.Is) and isinstance(test.left, ast.Call) \
+                and getattr(test.left.func, 'id', '') == 'type' and unparse(test.comparators[0]).endswith('VerbatimToken') \
+                and verb_idx is None:
             verb_idx = i
-    if verb_idx is not None:
+    if verb_idx is None:
+        verb_idx = len(branches)
+    if True:
         for i, (test, body) in enumerate(branches[:verb_idx]):
             lits = [n.comparators[0].value for n in ast.walk(test) if isinstance(n, ast.Compare) and len(n.ops) == 1
                     and isinstance(n.ops[0], ast.Eq) and isinstance(n.comparators[0], ast.Constant)
@@ -513,7 +516,7 @@ def dt1(model):
             elif lits:
                 r.ok(test, 'text test combined with a class test', nontrivial=True)
         if not any(f_.rule == 'DT1' and 'VerbatimToken branch' in f_.msg for f_ in r.findings):
-            r.ok(branches[verb_idx][0], 'no markup text test precedes the VerbatimToken branch', nontrivial=True)
+            r.ok(top, 'no markup text test precedes the VerbatimToken branch', nontrivial=True)
     # comment branch emits nothing
     cb = classes.get('CommentToken')
     if cb is not None:
